@@ -124,6 +124,12 @@ def Syscall.path : Syscall → Bytes
   | .mkdir p _ | .symlink _ p | .mknod p _ _ _ | .openExcl p _ | .openTrunc p _
   | .setxattr p _ _ _ | .utimens p _ _ | .chown p _ _ _ | .chmod p _ => p
 
+/-- does the call follow a symbolic link in the last component of its path? -/
+def Syscall.follows : Syscall → Bool
+  | .openTrunc _ _ | .chmod _ _ => true
+  | .setxattr _ _ _ nf | .utimens _ _ nf | .chown _ _ _ nf => !nf
+  | _ => false
+
 /-- the unpack options that change which calls are made (`-q`, `-Z` do not) -/
 structure Flags where
   chmod : Bool := false
